@@ -116,7 +116,9 @@ fn probe_tr(md: &MetadataMap, p: &str) -> Tr {
 fn split_pairs(items: Vec<(bool, String, Vec<u8>)>) -> (HeaderMap, HeaderMap) {
     let (mut a, mut b) = (HeaderMap::new(), HeaderMap::new());
     for (bin, k, v) in items {
-        let (k, v) = (HeaderName::from_bytes(k.as_bytes()).unwrap(), HeaderValue::from_bytes(&v).unwrap());
+        // a name with a double quote exists only through from_static
+        let k = HeaderName::from_bytes(k.as_bytes()).unwrap_or_else(|_| HeaderName::from_static(leak(&k)));
+        let v = HeaderValue::from_bytes(&v).unwrap();
         if bin {
             b.append(k, v);
         } else {
@@ -255,6 +257,12 @@ fn oracle_typed(h: &HeaderMap) -> Option<String> {
     }
     for k in h.keys() {
         let ks = k.as_str();
+        if ks.contains('"') {
+            // not a header name (premise of c08_static_key_is_from_bytes): crate http's from_static lets a
+            // double quote through, its from_bytes / string lookups do not, so such an entry is only
+            // reachable through iter / a typed key; modelled (hn_norm fails), not judged
+            continue;
+        }
         let bin = ks.ends_with("-bin");
         let all: Vec<&[u8]> = h.get_all(k).iter().map(|v| v.as_bytes()).collect();
         let ia: Vec<&[u8]> = a.get_all(k).iter().map(|v| v.as_bytes()).collect();
@@ -2119,7 +2127,8 @@ fn case_static(out: &mut Out, ops: &[Op], raw: &str, v: &str, corpus: bool) {
             m.into_headers()
         }));
         if let Ok(h) = &r {
-            let stored = HeaderName::from_bytes(raw.as_bytes()).ok().map(|n| h.contains_key(n)).unwrap_or(false);
+            // (HeaderName::from_static accepts a double quote in a name, from_bytes does not: look the name up by text)
+            let stored = h.keys().any(|k| k.as_str() == raw);
             if (!stored || is_bin_name != bin) && why.is_none() {
                 why = Some(format!(
                     "{} with the literal key {:?} stored a {} value under a {} name",
